@@ -327,7 +327,107 @@ def args_body(c):
               labels=["op=" + op, f"layout={layout}", "which=" + which, "kw" if kw else "nokw"] + (["float32_arg"] if lowp else []), sample=sample)
 
 
+def container_body(c):
+    """The differentiated argument is a container (tuple / list / dict / nested) and the function reads its leaves by drawn index spellings
+    (positive, negative, mixed, via unpacking, via a slice): every operator's answer, leaf by leaf, against the closed-form gradient."""
+    import autograd
+    import autograd.numpy as anp
+
+    sx = c.shape(0, 2, max_side=3)
+    sw = c.shape(0, 2, max_side=3)
+    vseed = c.seed()
+    (A, B, U, x0, V, D, E, w0), _ = values.generic(vseed, [sx, sx, sx, sx, sw, sw, sw, sw], -1.0, 1.0)
+    kind = c.choice(["tuple", "list", "dict", "nested", "tuple3"])
+    spell = c.int(0, 4)
+    op = c.choice(["grad", "value_and_grad", "make_vjp", "grad_and_aux", "make_jvp", "argnum_tuple"])
+    pad = 0.75
+
+    def core(x, w, ns=anp):
+        ax, ew = ns.sum(A * x), ns.sum(E * w)
+        return ns.sin(ax) + ns.sum(B * x * x) + ns.sum(U * x) * ns.sum(V * w) + ns.sum(D * w * w) + ns.sin(ew)
+
+    if kind in ("tuple", "list"):
+        params = (x0, w0) if kind == "tuple" else [x0, w0]
+        ix, iw = [(0, 1), (-2, -1), (0, -1), (-2, 1), (0, 1)][spell]
+        if spell == 4:
+            def fun(p):
+                x, w = p
+                return core(x, w)
+        else:
+            fun = lambda p: core(p[ix], p[iw])
+        leaves = lambda g: (g[0], g[1])
+    elif kind == "tuple3":
+        params = (x0, pad, w0)
+        ix, iw = [(0, 2), (-3, -1), (0, -1), (-3, 2), (0, 2)][spell]
+        if spell == 4:
+            fun = lambda p: core(p[:1][0], p[-1:][0]) + 0.0 * p[1]
+        else:
+            fun = lambda p: core(p[ix], p[iw]) * 1.0 + 0.0 * p[-2]
+        leaves = lambda g: (g[0], g[2])
+    elif kind == "dict":
+        params = {"w": w0, "x": x0}
+        fun = lambda p: core(p["x"], p["w"])
+        leaves = lambda g: (g["x"], g["w"])
+    else:
+        params = [(x0, pad), {"k": [w0]}]
+        ia, ib = [(0, 1), (-2, -1), (0, -1), (-2, 1), (0, 1)][spell]
+        fun = lambda p: core(p[ia][ia], p[ib]["k"][-1 if spell % 2 else 0])
+        leaves = lambda g: (g[0][0], g[1]["k"][0])
+    ax, ew = float(onp.sum(A * x0)), float(onp.sum(E * w0))
+    y0 = float(core(x0, w0, onp))
+    gx = onp.cos(ax) * A + 2 * B * x0 + U * onp.sum(V * w0)
+    gw = onp.sum(U * x0) * V + 2 * D * w0 + onp.cos(ew) * E
+    sample = {"sx": list(sx), "sw": list(sw), "kind": kind, "index_spelling": spell, "op": op, "vseed": vseed}
+    bucket = lambda k: f"C16|container|{op}|{k}"
+    checks = []
+    try:
+        if op == "grad":
+            g = autograd.grad(fun)(params)
+        elif op == "value_and_grad":
+            val, g = autograd.value_and_grad(fun)(params)
+            checks.append((val, y0, "value"))
+        elif op == "make_vjp":
+            vjp, val = autograd.make_vjp(fun)(params)
+            g = vjp(1.0)
+            checks.append((val, y0, "value"))
+        elif op == "grad_and_aux":
+            g, aux = autograd.grad_and_aux(lambda p: (fun(p), {"note": 1.0}))(params)
+        elif op == "argnum_tuple":
+            # the container passed next to another argument, both differentiated: grad(fun, (0, 1))
+            g2 = autograd.grad(lambda q, p: fun(p) * q, (0, 1))(1.5, params)
+            checks.append((g2[0], y0, "grad wrt the scalar factor"))
+            g = autograd.builtins.tuple(g2)[1]
+            gx, gw = 1.5 * gx, 1.5 * gw
+        else:
+            vx, vw = values.direction(vseed, sx, 6), values.direction(vseed, sw, 7)
+            if kind in ("tuple", "list"):
+                tang = type(params)((vx, vw))
+            elif kind == "tuple3":
+                tang = (vx, 0.0, vw)
+            elif kind == "dict":
+                tang = {"w": vw, "x": vx}
+            else:
+                tang = [(vx, 0.0), {"k": [vw]}]
+            val, t = autograd.make_jvp(fun)(params)(tang)
+            checks += [(val, y0, "value"), (t, float(onp.sum(gx * vx) + onp.sum(gw * vw)), "make_jvp tangent")]
+            g = None
+        if g is not None:
+            lx, lw = leaves(g)
+            checks += [(lx, gx, f"{op}: leaf x"), (lw, gw, f"{op}: leaf w")]
+    except Exception as e:
+        if not from_autograd(e):
+            raise
+        return fail("unexpected_exception", describe_exc(e), bucket("exception"), sample=sample)
+    for got, want, what in checks:
+        err = close(got, want, what, bucket, sample)
+        if err:
+            return err
+    c.features.update(sample)
+    return ok(nontrivial=True, key=json.dumps([list(sx), list(sw), kind, spell, op]), labels=["op=" + op, "kind=" + kind, f"spelling={spell}"], sample=sample)
+
+
 PROP = Prop("C16", [
     Test("tensor", tensor_body, quick=8000, thorough=30000, shard_size=300),
     Test("args", args_body, quick=8000, thorough=30000, shard_size=300),
+    Test("container_args", container_body, quick=3000, thorough=15000, shard_size=300),
 ], RULE, assumptions=["closed-form Jacobians and Hessians of the generated function family (computed with raw NumPy)"])
